@@ -82,9 +82,12 @@ def main():
     else:
         cases = list(F.load_corpus(pid))
         n = args.n or mod.COUNTS[tier]
-        for i in range(n):
-            rng = random.Random('%s-%d-%d' % (pid, seed, i))
-            cases.append(mod.gen(rng, i, tier))
+        if hasattr(mod, 'gen_batch'):
+            cases += mod.gen_batch(seed, n, tier)
+        else:
+            for i in range(n):
+                rng = random.Random('%s-%d-%d' % (pid, seed, i))
+                cases.append(mod.gen(rng, i, tier))
 
     enc = [mod.enc(c) for c in cases]
     try:
